@@ -105,6 +105,7 @@ type Action struct {
 	SLLA string  `json:"slla,omitempty"`
 	RA   *RASpec `json:"ra,omitempty"`
 	N    int     `json:"n,omitempty"` // copies delivered at this instant (default 1)
+	Conn bool    `json:"conn,omitempty"` // http: the request travels over a (simulated) connection through the real http.Server of the debug task instead of being handed to the handler
 	// Then: another packet put into the socket queue right behind this one, before
 	// the daemon gets to run (a burst: the listener finds them all waiting).
 	Then *Action `json:"then,omitempty"`
